@@ -409,6 +409,9 @@ func (v *Env) ident(name string) Value {
 	if v.e.C.GhostMaps[name] {
 		return GhostMapV{name}
 	}
+	if root := v.e.root(); root.remembered[name] {
+		return Scalar{Eq(v.e.ghostGet(v.state(), "let:"+name), ConstI(1, I64))}
+	}
 	if !v.site {
 		if val, ok := v.e.lets[name]; ok {
 			return val
@@ -493,7 +496,11 @@ func (v *Env) object(obj types.Object) Value {
 		sp := v.e.P.SPkgs[o.Pkg().Path()]
 		if sp != nil {
 			if g, ok := sp.Members[o.Name()].(*ssa.Global); ok {
-				return v.e.loadAt(v.state(), v.e.globalPtr(g))
+				gp := v.e.globalPtr(g)
+				if gp.Kind == pArr || gp.Kind == pObj {
+					return gp // arrays and structs: the location stands for the value
+				}
+				return v.e.loadAt(v.state(), gp)
 			}
 		}
 	case *types.Func:
